@@ -165,6 +165,12 @@ type compositeOracle struct {
 	onQuiesced func(e *Engine) *Violation
 	onClosed   func(e *Engine) *Violation
 	finishStats func(st *CaseStats)
+	// stopModelAtPar: from the first batch of concurrently issued operations on, the
+	// step-by-step model is silent (the order in which the router processes the batch
+	// is not determined); what must hold under every interleaving is judged by
+	// onQuiesced over the complete inboxes.
+	stopModelAtPar bool
+	modelOff       bool
 }
 
 func newComposite(c *Case, prop string, mk func(w *World) []Part) *compositeOracle {
@@ -200,6 +206,17 @@ func clientMayMessage(m wamp.Message) bool {
 }
 
 func (o *compositeOracle) OnStep(e *Engine, st *StepRec) *Violation {
+	if o.stopModelAtPar && !o.modelOff {
+		for _, oi := range st.OpIdx {
+			if oi >= 0 && oi < len(e.C.Ops) && e.C.Ops[oi].Par {
+				o.modelOff = true
+				o.st.Label("concurrent_batch_judged_by_invariants")
+			}
+		}
+	}
+	if o.modelOff {
+		return nil
+	}
 	if v := o.onStep(e, st); v != nil {
 		return v
 	}
